@@ -173,8 +173,38 @@ def s_tx_wire():
                      st.sampled_from(["BTC", "BTC", "LTC", "LTC", "BCH", "BTG"]), txgen.txs(big=1), alt)
 
 
+ALPHABETS = {"hex-lower": b"0123456789abcdef", "hex-upper": b"0123456789ABCDEF", "digits": b"0123456789", "blanks": b" \n\t\r",
+             "letters": b"ABCDEFGHIJKLMNOPQRSTUVWXYZabcdefghijklmnopqrstuvwxyz", "base64": b"ABCDEFGHabcdefgh0123456789+/=",
+             "nul": b"\x00", "ff": b"\xff\xfe"}
+
+
+def alphabet_tx(name, seed):
+    """a legal legacy transaction EVERY byte of whose serialisation is taken from one small alphabet (all ASCII hex digits, all
+    blanks, all letters ...): version, counts, hashes, indices, script lengths and contents, sequences, amounts, lock time"""
+    a = ALPHABETS[name]
+    k = [seed]
+
+    def nxt(n):
+        out = bytes(a[(k[0] + j * 7 + (j * j) % 5) % len(a)] for j in range(n))
+        k[0] += n + 3
+        return out
+    count = [b for b in a if 1 <= b < 0xfd] or [1]
+    n_in, n_out = count[seed % len(count)], count[(seed // 3) % len(count)]
+    if name in ("nul", "ff"):
+        return None        # a count byte of 0x00 means no inputs (the marker of the extended form), 0xff an 8-byte count
+    ins = [{"prev": nxt(32).hex(), "index": int.from_bytes(nxt(4), "little"), "script": nxt(count[(seed + i) % len(count)]).hex(),
+            "sequence": int.from_bytes(nxt(4), "little"), "witness": []} for i in range(n_in)]
+    outs = [{"value": int.from_bytes(nxt(8), "little"), "script": nxt(count[(seed + 2 * i) % len(count)]).hex()} for i in range(n_out)]
+    return {"version": int.from_bytes(nxt(4), "little"), "lock_time": int.from_bytes(nxt(4), "little"), "ins": ins, "outs": outs}
+
+
 def cases_tx_grid(tier):
     """one dimension at a time on every compact-size boundary, with and without a witness, BTC and LTC"""
+    for name in sorted(ALPHABETS):
+        for seed in (0, 1, 5):
+            tx = alphabet_tx(name, seed)
+            if tx is not None:
+                yield {"coin": "BTC" if seed != 5 else "LTC", "tx": tx, "alt_witness": None}
     bounds = txgen.SIZE_BOUNDS
     count_bounds = bounds if tier == "thorough" else [b for b in bounds if b < 0xFFFF]
     base_in = {"prev": "11" * 32, "index": 1, "script": "", "sequence": 0xFFFFFFFE, "witness": []}
